@@ -3,6 +3,8 @@ import NdcubeModel.Model.Cube
 import NdcubeModel.Model.Sequence
 import NdcubeModel.Model.Collection
 import NdcubeModel.Model.Rebin
+import NdcubeModel.Model.Wrappers
+import NdcubeModel.Model.Table
 
 /-!
 # Line-protocol driver
@@ -355,6 +357,107 @@ def opRebin (j : Json) : R Json := do
   | .ok o => pure <| Json.mkObj [("identity", .bool o.identity), ("shape", listJson natJson o.shape),
       ("values", listJson (optJson valJson) o.values), ("mask", maskOutJson o.mask)]
 
+/-! ## WCS wrappers (C14, C09, C06) -/
+
+def asPerAxis (j : Json) : R PerAxis :=
+  match optField j "scalar" with
+  | some q => (asRat q).map PerAxis.scalar
+  | none => do
+    let l ← field j "list"
+    (asList asRat l).map PerAxis.list
+
+def wcsInfoJson (w : LLWcs Sym) : List (String × Json) :=
+  [("pixDim", natJson w.pixDim), ("worldDim", natJson w.worldDim),
+   ("corr", listJson (listJson Json.bool) w.corr), ("arrayShape", optJson (listJson natJson) w.shape)]
+
+def opResampled (j : Json) : R Json := do
+  let w ← field j "wcs" >>= asWcs
+  let f ← field j "factor" >>= asPerAxis
+  let o ← field j "offset" >>= asPerAxis
+  let pix ← field j "pixels" >>= asList (asList asRat)
+  match resampled w f o with
+  | .error e => pure (errJson e)
+  | .ok w' =>
+    let fl := f.expand w.pixDim
+    let ol := o.expand w.pixDim
+    let ps := w.shape.map fun sh => resampledPixelShape sh.reverse fl
+    let bounds ← match optField j "bounds" with
+      | none => pure none
+      | some b => do
+        let bs ← asList (asList asRat) b
+        pure (some (resampledBounds (bs.map fun x => (x.getD 0 0, x.getD 1 0)) fl ol))
+    let under ← match optField j "underlying" with
+      | none => pure []
+      | some u => asList (asList asRat) u
+    pure <| Json.mkObj (wcsInfoJson w' ++ [
+      ("world", listJson (fun p => listJson symJson (w'.p2w p)) pix),
+      ("pixelShape", optJson (listJson ratJson) ps),
+      ("bounds", optJson (listJson fun (b : Rat × Rat) => Json.arr #[ratJson b.1, ratJson b.2]) bounds),
+      ("top", listJson (fun u => listJson ratJson (subDiv u fl ol)) under)])
+
+def opRebinCoords (j : Json) : R Json := do
+  let w ← field j "wcs" >>= asWcs
+  let bs ← field j "binShape" >>= asList asNat
+  let pix ← field j "pixels" >>= asList (asList asRat)       -- array order
+  let shape ← field j "shape" >>= asList asNat
+  match rebinWcs w bs with
+  | .error e => pure (errJson e)
+  | .ok w' =>
+    let grids := (shape.zip bs).map fun (d, b) => resampleGrid (((b : Rat) - 1) / 2) d (b : Rat)
+    pure <| Json.mkObj [
+      ("world", listJson (fun p => listJson symJson (w'.p2w p.reverse)) pix),
+      ("grids", listJson (listJson ratJson) grids)]
+
+def opReordered (j : Json) : R Json := do
+  let w ← field j "wcs" >>= asWcs
+  let types ← field j "types" >>= asList asStr
+  let po ← field j "pixelOrder" >>= asList asNat
+  let wo ← field j "worldOrder" >>= asList asNat
+  let pix ← field j "pixels" >>= asList (asList asRat)
+  match reordered w types po wo with
+  | .error e => pure (errJson e)
+  | .ok r =>
+    pure <| Json.mkObj (wcsInfoJson r.wcs ++ [
+      ("world", listJson (fun p => listJson symJson (r.wcs.p2w p)) pix),
+      ("types", listJson Json.str r.worldTypes),
+      ("pixelShape", optJson (listJson natJson) r.pixelShape)])
+
+/-- members of a compound get distinct base ids so that terms say which member produced them -/
+def asMemberWcs (k : Nat) (j : Json) : R (LLWcs (Nat × Sym)) := do
+  let w ← asWcs j
+  pure { pixDim := w.pixDim, worldDim := w.worldDim,
+         p2w := fun q => (w.p2w q).map fun s => (k, s),
+         w2p := fun _ => [], corr := w.corr, shape := w.shape }
+
+def memberSymJson (s : Nat × Sym) : Json :=
+  Json.mkObj [("member", natJson s.1), ("w", natJson s.2.1), ("at", listJson ratJson s.2.2)]
+
+def opCompound (j : Json) : R Json := do
+  let wsJ ← field j "members" >>= asArr
+  let ws ← (wsJ.zipIdx).mapM fun (m, k) => asMemberWcs k m
+  let mapping ← field j "mapping" >>= asList asNat
+  let pix ← field j "pixels" >>= asList (asList asRat)
+  match compound ws mapping with
+  | .error e => pure (errJson e)
+  | .ok c =>
+    -- world_to_pixel assembly from the pixel values each member's inverse returned
+    let memberPix ← match optField j "memberPixels" with
+      | none => pure []
+      | some mp => asList (asList asRat) mp
+    let em := effectiveMapping ws mapping
+    let back := memberPix.map fun flat =>
+      if !sharedAgree em flat then errJson .valueError
+      else listJson ratJson (selectIdx (mappingInverse em (nInputsOf em)) flat)
+    pure <| Json.mkObj [("pixDim", natJson c.pixDim), ("worldDim", natJson c.worldDim),
+      ("corr", listJson (listJson Json.bool) c.corr), ("arrayShape", optJson (listJson natJson) c.shape),
+      ("world", listJson (fun p => listJson memberSymJson (c.p2w p)) pix),
+      ("back", Json.arr back.toArray)]
+
+def opTable (j : Json) : R Json := do
+  let t ← field j "table" >>= asList asRat
+  let xs ← field j "at" >>= asList asRat
+  pure <| Json.mkObj [("values", listJson (optJson ratJson) (xs.map (interp1 t)))]
+
 def dispatch (j : Json) : R Json := do
   let op ← field j "op" >>= asStr
   match op with
@@ -365,6 +468,11 @@ def dispatch (j : Json) : R Json := do
   | "seq_shape" => opSeqShape j
   | "collection" => opCollection j
   | "rebin" => opRebin j
+  | "resampled" => opResampled j
+  | "rebin_coords" => opRebinCoords j
+  | "reordered" => opReordered j
+  | "compound" => opCompound j
+  | "table" => opTable j
   | _ => .error s!"unknown op {op}"
 
 def handleLine (line : String) : String :=
